@@ -1,6 +1,35 @@
+import Model.TypeStr
 import Driver.Util
 namespace Driver.C05
-/-- placeholder: replaced when the property's model is built -/
-def step (_ : Unit) (_ : List String) : Unit × String := ((), "unimplemented")
+open Util
+
+/-- ops (answers are compared with the implementation's by the check driver):
+  ts   <hex>   metadata.go parseType               → ok:<result> | crash:<func>:<kind>
+  gct  <hex>   helpers.go getCassandraType (ASCII) → ok:<type tree>
+  gctx <hex>   the same on arbitrary bytes         → ok
+  gti / gtix <hex>  metadata.go getTypeInfo
+  a2c  <hex>   helpers.go apacheToCassandraType    → ok:<hex> -/
+def typeStr (ws : List String) : Option String :=
+  match ws with
+  | [op, h] =>
+    match parseHex h with
+    | none => if op ∈ ["ts", "gct", "gctx", "gti", "gtix", "a2c"] then some "bad-op" else none
+    | some bs =>
+      let s := TypeStr.bytesOfHex bs
+      match op with
+      | "ts" => some (TypeStr.renderOut TypeStr.renderResult (TypeStr.parseType false s))
+      | "gct" => some (TypeStr.renderOut TypeStr.renderTy (TypeStr.getCassandraType s))
+      | "gctx" => some (TypeStr.renderOut (fun _ => "") (TypeStr.getCassandraType s) |>.dropEndWhile (· == ':') |>.toString)
+      | "gti" => some (TypeStr.renderOut TypeStr.renderTy (TypeStr.getTypeInfo s))
+      | "gtix" => some (TypeStr.renderOut (fun _ => "") (TypeStr.getTypeInfo s) |>.dropEndWhile (· == ':') |>.toString)
+      | "a2c" => some ("ok:" ++ TypeStr.hexOf (TypeStr.apacheToCassandraType s))
+      | _ => none
+  | _ => none
+
+def step (_ : Unit) (ws : List String) : Unit × String :=
+  ((), match typeStr ws with
+       | some a => a
+       | none => "bad-op")
+
 def init : Unit := ()
 end Driver.C05
